@@ -99,6 +99,10 @@ func init() {
 			{Name: "rewrite: agent answers through WriteStreamOpenErr, nil test first", Edits: []Edit{
 				{File: agt, Old: "\t\t\t\tif a.forwardHandler != nil {\n\t\t\t\t\tctx := context.Background()\n\t\t\t\t\ta.forwardHandler.HandleStreamOpen(ctx, frame.StreamID, open.RequestID, peerID, key, open.EphemeralPubKey)\n\t\t\t\t} else {\n\t\t\t\t\t// No forward handler - send error\n\t\t\t\t\terrPayload := &protocol.StreamOpenErr{\n\t\t\t\t\t\tRequestID: open.RequestID,\n\t\t\t\t\t\tErrorCode: protocol.ErrForwardNotFound,\n\t\t\t\t\t\tMessage:   \"forward key not configured\",\n\t\t\t\t\t}\n\t\t\t\t\terrFrame := &protocol.Frame{\n\t\t\t\t\t\tType:     protocol.FrameStreamOpenErr,\n\t\t\t\t\t\tStreamID: frame.StreamID,\n\t\t\t\t\t\tPayload:  errPayload.Encode(),\n\t\t\t\t\t}\n\t\t\t\t\ta.peerMgr.SendToPeer(peerID, errFrame)\n\t\t\t\t}\n\t\t\t\treturn\n", New: "\t\t\t\tif a.forwardHandler == nil {\n\t\t\t\t\ta.WriteStreamOpenErr(peerID, frame.StreamID, open.RequestID, protocol.ErrForwardNotFound, \"forward key not configured\")\n\t\t\t\t\treturn\n\t\t\t\t}\n\t\t\t\ta.forwardHandler.HandleStreamOpen(context.Background(), frame.StreamID, open.RequestID, peerID, key, open.EphemeralPubKey)\n\t\t\t\treturn\n"},
 			}},
+			{Name: "rewrite: forward dispatch through a helper that receives the trimmed key", Edits: []Edit{
+				{File: agt, Old: "\t\t\t\tkey := strings.TrimPrefix(destAddr, protocol.ForwardStreamPrefix)\n\t\t\t\tif a.forwardHandler != nil {\n\t\t\t\t\tctx := context.Background()\n\t\t\t\t\ta.forwardHandler.HandleStreamOpen(ctx, frame.StreamID, open.RequestID, peerID, key, open.EphemeralPubKey)\n\t\t\t\t} else {", New: "\t\t\t\tif a.forwardHandler != nil {\n\t\t\t\t\ta.openForwardKey(peerID, frame.StreamID, open, strings.TrimPrefix(destAddr, protocol.ForwardStreamPrefix))\n\t\t\t\t} else {"},
+				{File: agt, Old: "// addressToString converts address bytes to a string representation.", New: "func (a *Agent) openForwardKey(peerID identity.AgentID, streamID uint64, open *protocol.StreamOpen, key string) {\n\tif a.forwardHandler == nil {\n\t\ta.WriteStreamOpenErr(peerID, streamID, open.RequestID, protocol.ErrForwardNotFound, \"forward key not configured\")\n\t\treturn\n\t}\n\ta.forwardHandler.HandleStreamOpen(context.Background(), streamID, open.RequestID, peerID, key, open.EphemeralPubKey)\n}\n\n// addressToString converts address bytes to a string representation."},
+			}},
 		},
 	})
 }
@@ -945,15 +949,38 @@ func (cx *c20Ctx) ruleR4() {
 		}
 		n++
 		ok, why := true, ""
-		os := kit.Origins(cs.Common().Args[kidx])
-		if len(os) == 0 {
-			ok, why = false, "no origin"
-		}
-		for _, o := range os {
-			if good, w := cx.prefixRemoved(o); !good {
-				ok, why = false, w
+		// the key may be handed down through parameters of dispatch helpers: judge it where it is made
+		var judge func(v ssa.Value, depth int)
+		judge = func(v ssa.Value, depth int) {
+			os := kit.Origins(v)
+			if len(os) == 0 {
+				ok, why = false, "no origin"
+			}
+			for _, o := range os {
+				if q, isPar := o.(*ssa.Parameter); isPar && depth < 4 {
+					owner := q.Parent()
+					idx := -1
+					for i, fp := range owner.Params {
+						if fp == q {
+							idx = i
+						}
+					}
+					callers := p.StaticCallers(owner)
+					if idx >= 0 && len(callers) > 0 {
+						for _, c2 := range callers {
+							if idx < len(c2.Common().Args) {
+								judge(c2.Common().Args[idx], depth+1)
+							}
+						}
+						continue
+					}
+				}
+				if good, w := cx.prefixRemoved(o); !good {
+					ok, why = false, w
+				}
 			}
 		}
+		judge(cs.Common().Args[kidx], 0)
 		r.Decide(ok, "C20.R4", fmt.Sprintf("%s key argument #%d", kit.FuncName(g), n), p.Pos(cs.Pos()),
 			"the key is the requested address with the constant forward prefix removed",
 			"the key handed to the forward handler is "+why+", not the requested address minus the forward prefix: the endpoint resolves a different key than the one requested")
